@@ -19,7 +19,8 @@ func init() {
 		Decided: "D1 every field of the queue is either never written after construction or accessed only while the queue's mutex is held (a field through which the value list is mutated counts as written); " +
 			"D2 every Lock is followed by Unlock on all normal paths; D3 no channel operation or blocking queue call happens inside a lock region; " +
 			"D4 AddValue appends under the lock before it publishes the token, RemoveHead takes the token before it pops and pops only when the receive reported ok; " +
-			"D5 the channel's buffer size and the stored capacity are the same value, GetSize/IsEmpty read the channel's length.",
+			"D5 the channel's buffer size and the stored capacity are the same value, GetSize/IsEmpty read the channel's length." +
+			" Also: in RemoveHead every change of the value list lies on the ok edge of the token receive and the value delivered is the removal's own result (not a separate read, not the channel's payload); a constructor that preloads tokens in a counting loop sends exactly one per initial value; a close guarded by a state field is matched by a reset wherever a new channel is installed.",
 		NotDecided:  "linearizability, FIFO order across producers, exactly-once delivery, the blocking bound: all quantify over interleavings; D1-D4 are the race-freedom and ordering preconditions of such an argument, nothing more.",
 		Run:         runC04,
 		Assumptions: []string{"Go memory model: accesses guarded by one mutex do not race; channel operations are synchronised by the runtime"},
@@ -29,7 +30,8 @@ func init() {
 		Engines: "EFFECT (frozen channel field), SYM (capacity >= input size at self-filling constructors), PATH",
 		Decided: "D1 the channel on which AddValue/RemoveHead block is never replaced after construction (a goroutine parked on the old channel cannot be woken through a new one); " +
 			"D2 every function that creates a queue and fills it through the blocking AddValue before returning creates it with a capacity >= the number of values on all integers; " +
-			"D3 CloseQueue closes the very channel RemoveHead receives from, RemoveHead uses the two-value receive and returns its ok.",
+			"D3 CloseQueue closes the very channel RemoveHead receives from, RemoveHead uses the two-value receive and returns its ok." +
+			" Also: no channel operation inside a lock region; one token per initial value at birth; a guarded close is reset with the channel; the outputs of Fork/Split/Join are closed on every path after the input is drained.",
 		NotDecided: "absence of lost wake-ups and termination of producer/consumer programs over all schedules (the runtime's channel semantics are trusted, interleavings are not explored).",
 		Run:        runC05,
 	})
